@@ -456,6 +456,31 @@ theorem for_string_loop_by_chars (cs : List Char) :
   have := rowsFrom_get cs.length cs 0 i h
   simpa [rowData] using this
 
+/-- A list comprehension over a string goes by characters and always builds a list: the
+identity comprehension `[c for c in s]` is the list of the one-character strings of `s` (never
+the string itself), it has `chars` entries, and slicing it is Python's selection of characters,
+each still a separate list entry. -/
+theorem comprehension_string_by_chars (kind : Bool) (s : List Char) (hlen : s.length ≤ USIZE_MAX)
+    (start stop step : Option Int)
+    (hstart : ∀ v, start = some v → inI128 v) (hstop : ∀ v, stop = some v → inI128 v)
+    (hstep : ∀ v, step = some v → inI128 v) (hnz : step.getD 1 ≠ 0) :
+    identityComprehension (.str kind s) = .ok (.arr (s.map fun c => Value.str false [c])) ∧
+    (identityComprehension (.str kind s)).bind lengthFilter = .ok s.length ∧
+    ∃ r, select s start stop step = some r ∧
+      (identityComprehension (.str kind s)).bind (fun l => slice l start stop step) =
+        .ok (.arr (r.map fun c => Value.str false [c])) := by
+  have h0 : identityComprehension (.str kind s) = .ok (.arr (s.map fun c => Value.str false [c])) := by
+    simp [identityComprehension, comprehension, iterItems, iterChars, Res.bind]
+  refine ⟨h0, by rw [h0]; simp [Res.bind, lengthFilter, len], ?_⟩
+  have hsel : ∃ r, select s start stop step = some r := by
+    unfold select; simp only [hnz, if_false]; exact ⟨_, rfl⟩
+  obtain ⟨r, hr⟩ := hsel
+  refine ⟨r, hr, ?_⟩
+  rw [h0]
+  simp only [Res.bind]
+  rw [slice_eq_python _ (by simpa [recvLen] using hlen) start stop step hstart hstop hstep]
+  simp only [pySliceValue, select_map, hr, Option.map_some]
+
 /-- The char-level view used by the other theorems agrees with the byte-level one: iterating
 yields the one-character strings of the receiver. -/
 theorem for_string_items (cs : List Char) :
